@@ -212,8 +212,18 @@ Definition number_of_vehicles_required_to_serve (ty : Z) (n : node_id) : Z :=
   | None => 0
   end.
 
-(* maximal_formation_count_for: limit_of_type.map(|l| l.min(limit_of_node.unwrap_or(l))) *)
+(* maximal_formation_count_for: the smaller of the type's and the route segment's limit, or the one given
+   (since the repair "fix: maximal_formation_count_for ignored the route segment's limit ...") *)
 Definition maximal_formation_count_for (n : node_id) : option Z :=
+  let limit_of_type := match vtype_of (vehicle_type_for n) with Some vt => vt_limit vt | None => None end in
+  let limit_of_node := match nd n with NService s => st_limit s | _ => None end in
+  match limit_of_type, limit_of_node with
+  | Some a, Some b => Some (Z.min a b)
+  | Some a, None => Some a
+  | None, b => b
+  end.
+(* before that repair: None whenever the type has no limit *)
+Definition maximal_formation_count_for_prefix (n : node_id) : option Z :=
   let limit_of_type := match vtype_of (vehicle_type_for n) with Some vt => vt_limit vt | None => None end in
   let limit_of_node := match nd n with NService s => st_limit s | _ => None end in
   match limit_of_type with
